@@ -282,6 +282,26 @@ void PCA(matrix *mx, int scaling, size_t npc, PCAMODEL* model, ssignal *s)
       if(DVectorDVectorDotProd(t, t) == 0.f || mod_t <= 1e-24*ss)
         break;
 
+      /* The column with the largest variance can be rounding residue while the sum of squares that is
+       * left sits in columns without variance (constant columns of data that were not centred):
+       * start from the column with the largest sum of squares then. */
+      if(DVectorDVectorDotProd(t, t) <= 1e-24*ss){
+        double best_ss = -1.f;
+        double col_ss;
+        size_t best_col = 0;
+        for(j = 0; j < E->col; j++){
+          col_ss = 0.f;
+          for(i = 0; i < E->row; i++)
+            col_ss += square(E->data[i][j]);
+          if(col_ss > best_ss){
+            best_ss = col_ss;
+            best_col = j;
+          }
+        }
+        for(i = 0; i < E->row; i++)
+          t->data[i] = E->data[i][best_col];
+      }
+
       /* End Step 1 */
 
       niter = 0;
